@@ -577,6 +577,32 @@ def d_delegate( ctx ):
         res.ok( src, ga, '__getattr__ delegates to __getitem__' )
     else:
         res.bad( src, ga, '__getattr__', 'attribute form must be defined through __getitem__' )
+    # ... for EVERY name: nothing in __getattr__ refuses a name before it was looked up as a key ( each raise / return is the delegation itself
+    # or lies behind it on the CFG ).  A name with a leading underscore is a legal key: refused in attribute form it can be set ( d._x = 1 ),
+    # is a member and is listed, but d._x - and every index expression that reads it, l[idx._x] - says it is absent
+    gcfg = CFG( ga )
+    deleg = [ n for n in gcfg.nodes if n.own() is not None and any( is_call_to( c, 'self.__getitem__' ) for c in ast.walk( n.own())) ]
+    if deleg:
+        gdom = gcfg.dominators()
+        early = [ n for n in gcfg.nodes if n.kind == 'stmt' and isinstance( n.stmt, ( ast.Raise, ast.Return )) and n not in deleg
+                  and not any( gcfg.dominates( d_, n, gdom ) for d_ in deleg ) and not any( isinstance( a_, ast.ExceptHandler ) for a_ in src.ancestors( n.stmt )) ]
+        if early:
+            res.bad( src, early[0].stmt, '__getattr__ answers ( %s ) before the name was looked up as a key' % norm_text( ast.unparse( early[0].stmt ))[:50],
+                     'a key that can be assigned, is a member and is listed cannot be read in attribute form - nor from inside an index expression, which reads its peers by attribute: lookup no longer agrees with membership' )
+        else:
+            res.ok( src, ga, '__getattr__ looks every name up as a key before it answers' )
+    # pop: an optional default travels on unchanged - a function that takes it as *<name> forwards it as *<name> ( or a starred slice of it ),
+    # never as one positional argument ( the tuple itself would come back, once more wrapped per level, where KeyError or the default belongs )
+    pp = src.get( 'dotdict_base.pop' )
+    va = pp.args.vararg.arg if pp.args.vararg else None
+    if va:
+        bare = [ c for c in ast.walk( pp ) if isinstance( c, ast.Call ) and isinstance( c.func, ast.Attribute ) and c.func.attr == 'pop'
+                 and any( isinstance( a_, ast.Name ) and a_.id == va for a_ in c.args ) ]
+        if bare:
+            res.bad( src, bare[0], 'pop hands its optional arguments on as ONE argument ( %s )' % norm_text( ast.unparse( bare[0] ))[:60],
+                     'popping a path whose levels exist but whose last name is absent returns the tuple of defaults - ( ) or ( default, ) - instead of raising KeyError / returning the default' )
+        else:
+            res.ok( src, pp, 'pop forwards its optional default as *%s' % va )
     sa = src.get( 'dotdict_base.__setattr__' )
     if any( is_call_to( n, 'self.__setitem__' ) for n in ast.walk( sa )):
         res.ok( src, sa, '__setattr__ delegates to __setitem__' )
@@ -604,7 +630,6 @@ def d_delegate( ctx ):
     ct = src.get( 'dotdict_base.__contains__' )
     tries = [ n for n in ast.walk( ct ) if isinstance( n, ast.Try ) ]
     via_getitem = any( is_call_to( n, 'self.__getitem__' ) or ( isinstance( n, ast.Subscript ) and dotted( n.value ) == 'self' ) for n in ast.walk( ct ))
-    from .cfg import CFG
     ccfg = CFG( ct )
     gcalls = [ n for n in ccfg.nodes if n.kind == 'stmt' and n.stmt is not None and any(
         is_call_to( c, 'self.__getitem__' ) or ( isinstance( c, ast.Subscript ) and dotted( c.value ) == 'self' ) for c in ast.walk( n.stmt )) ]
